@@ -5,7 +5,6 @@ import (
 	"go/constant"
 	"go/token"
 	"go/types"
-	"sort"
 	"strings"
 
 	"golang.org/x/tools/go/ssa"
@@ -254,89 +253,7 @@ func checkC05(c *Ctx) (string, []string) {
 	}
 	c.extra["load_handler_register_stores"] = nload
 
-	c.Rule("C05.heap-growth", "Memory.heapPointer is stored only by the two sbrk handlers (and set at initialisation); both handlers store old+request only on the false edges of new < old (wrap) and new > heapLimit, map new pages ReadWrite from fresh zeroed storage via allocateMemorySegment(mem, old, P(new), nil, ReadWrite), and have identical bound tests", 7)
-	hp := c.Field("PVM", "Memory.heapPointer")
-	writers := map[string]bool{}
-	var sbrkConds [][]string
-	for _, f := range c.SrcFuncs("PVM") {
-		allInstrs(f, func(in ssa.Instruction) {
-			s, ok := in.(*ssa.Store)
-			if !ok {
-				return
-			}
-			fa, ok := s.Addr.(*ssa.FieldAddr)
-			if !ok || structField(fa.X.Type(), fa.Field) != hp {
-				return
-			}
-			if _, isLocal := fa.X.(*ssa.Alloc); isLocal {
-				return // literal under construction
-			}
-			writers[funcKey(f)] = true
-			okW := f.Name() == "instSbrk" || f.Name() == "instSbrkMeta"
-			c.Check(okW, "C05.heap-growth", funcKey(f)+" · heapPointer writer", in.Pos(), "sbrk handler", "heap pointer written outside the sbrk handlers")
-			if !okW {
-				return
-			}
-			val := exprStr(s.Val, shapeOpts)
-			bo, isAdd := stripConv(s.Val).(*ssa.BinOp)
-			okShape := isAdd && bo.Op == token.ADD && (strings.HasSuffix(exprStr(bo.X, shapeOpts), ".heapPointer") || strings.HasSuffix(exprStr(bo.Y, shapeOpts), ".heapPointer"))
-			wrap := condEdges(f, func(v ssa.Value) (bool, bool) {
-				b, ok := v.(*ssa.BinOp)
-				return ok && b.Op == token.LSS && sameExpr(b.X, s.Val) && strings.HasSuffix(exprStr(b.Y, shapeOpts), ".heapPointer"), false
-			})
-			limit := condEdges(f, func(v ssa.Value) (bool, bool) {
-				b, ok := v.(*ssa.BinOp)
-				if !ok {
-					return false, false
-				}
-				if b.Op == token.GTR && sameExpr(b.X, s.Val) && strings.HasSuffix(exprStr(b.Y, shapeOpts), ".heapLimit") {
-					return true, false
-				}
-				if b.Op == token.LSS && sameExpr(b.Y, s.Val) && strings.HasSuffix(exprStr(b.X, shapeOpts), ".heapLimit") {
-					return true, false
-				}
-				return false, false
-			})
-			c.Check(okShape && guardedBy(f, in, wrap) && guardedBy(f, in, limit), "C05.heap-growth", funcKey(f)+" · bounded growth", in.Pos(),
-				"heapPointer ← heapPointer + request only when it neither wraps nor exceeds heapLimit", "heap pointer set to "+val+" without both the wrap test (new < old) and the limit test (new > heapLimit) dominating the store")
-			cs := condShapes(f)
-			var rel []string
-			for _, x := range cs {
-				if strings.Contains(x, "heapPointer") || strings.Contains(x, "heapLimit") {
-					rel = append(rel, regNormalize(x))
-				}
-			}
-			sort.Strings(rel)
-			sbrkConds = append(sbrkConds, rel)
-			// page mapping
-			var allocs []string
-			for _, k := range callsIn(f, c.Obj("PVM", "allocateMemorySegment")) {
-				a := k.Common().Args
-				allocs = append(allocs, regNormalize(fmt.Sprintf("(%s, %s, %s, %s)", exprStr(a[1], shapeOpts), exprStr(a[2], shapeOpts), exprStr(a[3], shapeOpts), exprStr(a[4], shapeOpts))))
-			}
-			want := "(u32(p0.Memory.heapPointer), PVM.P(int((p0.Memory.heapPointer + REG))), nil, 2)"
-			c.Check(len(allocs) == 1 && allocs[0] == want, "C05.heap-growth", funcKey(f)+" · new pages", in.Pos(), "new heap pages are fresh zeroed ReadWrite pages from the old pointer to P(new)", "heap pages mapped as "+strings.Join(allocs, ";")+", expected "+want)
-		})
-	}
-	if len(sbrkConds) == 2 {
-		c.Check(strings.Join(sbrkConds[0], ";") == strings.Join(sbrkConds[1], ";"), "C05.heap-growth", "PVM.instSbrk ~ PVM.instSbrkMeta · bound tests", token.NoPos, "both engines apply the same heap bound tests",
-			"the two sbrk handlers test different bounds: ["+strings.Join(sbrkConds[0], " ; ")+"] vs ["+strings.Join(sbrkConds[1], " ; ")+"]")
-	} else {
-		c.Bad("C05.heap-growth", "sbrk handlers", token.NoPos, "expected two sbrk handlers storing heapPointer, found %d", len(sbrkConds))
-	}
-	// heapLimit = stack start is checked under C06; here: heapLimit is never stored after construction
-	hl := c.Field("PVM", "Memory.heapLimit")
-	for _, f := range c.SrcFuncs("PVM") {
-		allInstrs(f, func(in ssa.Instruction) {
-			if s, ok := in.(*ssa.Store); ok {
-				if fa, ok := s.Addr.(*ssa.FieldAddr); ok && structField(fa.X.Type(), fa.Field) == hl {
-					if _, isLocal := fa.X.(*ssa.Alloc); !isLocal {
-						c.Bad("C05.heap-growth", funcKey(f)+" · heapLimit store", in.Pos(), "heapLimit modified after construction")
-					}
-				}
-			}
-		})
-	}
+	c05HeapGrowth(c)
 
 	c.Rule("C05.range-check-shape", "isReadable/isWriteable implement the GP range test (decided by evaluation on boundary starts and lengths) and differ only in the page predicate", 8)
 	e.ruleRangeCheckShape("C05.range-check-shape")
